@@ -114,11 +114,15 @@ def servedHeader (s : CacheStatus) (f : Freshness) (now : Int) (h : Header) (cc 
 def serveStale (f : Freshness) (now : Int) (stored : Entry) : Resp :=
   respWith stored.resp (servedHeader .stale f now stored.resp.header (parseCC stored.resp.header))
 
-/-- clientPreconditionForwarded: a precondition of the client's own went upstream because the stored
-    response has no validator of that kind to replace it -/
+/-- hasFieldValue: some field line of the field has a value -/
+def hasFieldValue (h : Header) (n : Str) : Bool := (Header.values h n).any (fun v => !v.isEmpty)
+
+/-- clientPreconditionForwarded: a precondition of the client's own decided the origin's answer because the
+    stored response has no validator to put in its place. With a stored ETag the answer is about the stored
+    response (If-None-Match takes precedence over any If-Modified-Since, RFC 9110 §13.2.2). -/
 def clientPreconditionForwarded (reqH storedH : Header) : Bool :=
-  (!(Header.get reqH sIfNoneMatch).isEmpty && (Header.get storedH sETag).isEmpty) ||
-  (!(Header.get reqH sIfModifiedSince).isEmpty && (Header.get storedH sLastModified).isEmpty)
+  (Header.get storedH sETag).isEmpty &&
+  (hasFieldValue reqH sIfNoneMatch || (hasFieldValue reqH sIfModifiedSince && (Header.get storedH sLastModified).isEmpty))
 
 /-- HandleValidationResponse; `reqH` is the header list of the CLIENT's request: what a full reply is
     stored for (the conditional request only goes upstream) -/
